@@ -16,7 +16,8 @@ def dec(s):
         return s
     if s == '%None':
         return s
-    return re.sub(r'%([0-9A-Fa-f]{2})', lambda m: chr(int(m.group(1), 16)), s)
+    # %XX are the UTF-8 bytes of the character
+    return re.sub(r'(?:%[0-9A-Fa-f]{2})+', lambda m: bytes(int(h, 16) for h in m.group(0)[1:].split('%')).decode('utf-8', 'replace'), s)
 
 
 def RAISED(e):
